@@ -290,6 +290,24 @@ def numeric(rng, tier):
                 a3 = pp.metric.rpe(stamps, ref, jit.clone(), est, etype=et, align=True); b3 = pp.metric.rpe(stamps, ref, jit.clone(), G @ est, etype=et, align=True); evals += 2
                 if abs(float(a3['RMSE']) - float(b3['RMSE'])) > 1e-6 * (1 + float(a3['RMSE'])):
                     fails.append(dict(clause='rpe_align_invariance', signature=f'rigid/{et}', a=float(a3['RMSE']), b=float(b3['RMSE'])))
+        # planar trajectories (a ground robot: z = 0, rotations about z): the cross-covariance of the alignment has rank 2 and its SVD lands in
+        # the reflection case for about half of the rigid placements of the estimate - the aligned errors must not depend on the placement
+        if n >= 4:
+            ang = torch.cumsum(0.2 * torch.randn(n, dtype=d), 0); xy = torch.cumsum(torch.rand(n, 2, dtype=d), 0)
+            def planar(xy_, ang_):
+                q = torch.stack([torch.zeros_like(ang_), torch.zeros_like(ang_), torch.sin(ang_ / 2), torch.cos(ang_ / 2)], -1)
+                return pp.SE3(torch.cat([xy_, torch.zeros(len(ang_), 1, dtype=d), q], -1))
+            pref = planar(xy, ang); pest = planar(xy + 0.02 * torch.randn(n, 2, dtype=d), ang + 0.01 * torch.randn(n, dtype=d))
+            for trial in range(3):
+                Gp = pp.randn_SE3(dtype=d)
+                for et in ('translation', 'rotation'):
+                    for sc_ in (False, True):
+                        try:
+                            a5 = pp.metric.ape(stamps, pref, stamps, pest, etype=et, align=True, scale=sc_); b5 = pp.metric.ape(stamps, pref, stamps, Gp @ pest, etype=et, align=True, scale=sc_); evals += 2
+                        except Exception as e:
+                            fails.append(dict(clause='ape_raises', signature=f'planar/{et}/scale={sc_}', error=f'{type(e).__name__}: {e}'[:160])); continue
+                        if abs(float(a5['RMSE']) - float(b5['RMSE'])) > 1e-6 * (1 + float(a5['RMSE'])) or abs(float(a5['Max']) - float(b5['Max'])) > 1e-6 * (1 + float(a5['Max'])):
+                            fails.append(dict(clause='ape_align_invariance', signature=f'planar trajectory/{et}/scale={sc_}', a=float(a5['RMSE']), b=float(b5['RMSE'])))
         # rpe with every pairing option (frame / distance association, all pairs or consecutive, pairs taken from the reference): the pairing
         # depends on the SHAPE of the trajectory only, so rpe stays invariant under left multiplication - also for a trajectory that starts
         # close to the origin (closer than delta) and is moved away from it
